@@ -13,6 +13,8 @@ CONSTANTS
   Hi = 400
   Step = 50
   RbfDepth = 4
+  PeerDepth = 2
+  PeerWide = TRUE
   TightCap = FALSE
 INVARIANTS NeverAbort
 CHECK_DEADLOCK FALSE
